@@ -291,7 +291,7 @@ var checks = []Check{
 		LevelNote:    "the lookup clause rides on the reached states: times are the recorded slots, one before and one after each, 0, the head slot and a far future slot; four-slot records and arbitrary times are not explored",
 		Technique:    "deterministic simulation of the node under seeded block histories with fault injection (invalid blocks rejected at chosen STF stages, retries, children of rejected blocks, forks, restarts from exported state), reference-node and reference-model oracles, tape shrinking + fresh-process replay",
 		DesignRef:    "DESIGN.md §4 H4, Appendix A",
-		ExpectProbes: []string{"probe:preimage_integrated", "probe:historical_lookup_evaluated", "probe:historical_lookup_on_three_slot_entry", "fault:invalid_block:preimage-unsolicited", "fault:invalid_block:preimage-already-provided", "fault:invalid_block:preimages-unsorted", "fault:invalid_block:preimage-duplicate"},
+		ExpectProbes: []string{"probe:preimage_integrated", "probe:historical_lookup_evaluated", "probe:historical_lookup_on_three_slot_entry", "fault:invalid_block:preimage-unsolicited", "fault:invalid_block:preimage-solicited-by-another-service-only", "fault:invalid_block:preimage-already-provided", "fault:invalid_block:preimages-unsorted", "fault:invalid_block:preimage-duplicate"},
 	},
 	{
 		Property: "C24", Harness: "h4chain", Level: "exploration",
